@@ -214,7 +214,7 @@ that carry a zero effective deadline and/or are in flight when their connection 
 
 /-- Whatever the deadline of a call — zero included — `Reconnect::call` runs exactly as for an
 ordinary call: the middleware does not change what happens to the state machine, and a parked
-connect error is taken by that very call and not left behind for a later one. -/
+connect error is taken by that very call and not left behind for a later one. (Transcription lemma: it holds by unfolding the model's definition, so it pins the model's shape for the correspondence run — its assurance about tonic is the tie, not this proof.) -/
 theorem C14_deadline_call_takes_parked_error (r : R) (zero : Bool) :
     (stackCall r zero).1 = (call r).1 ∧
     ∀ e, r.error = some e → (stackCall r zero).2 = .error e ∧ (stackCall r zero).1.error = none :=
@@ -222,7 +222,7 @@ theorem C14_deadline_call_takes_parked_error (r : R) (zero : Bool) :
 
 /-- One request with any deadline through the worker is the ordinary `serve` seen through the
 deadline: same state afterwards, same part of the script consumed, and the only difference is
-that a request that went out with a zero deadline ends as `expired` instead of answered. -/
+that a request that went out with a zero deadline ends as `expired` instead of answered. (Transcription lemma: it holds by unfolding the model's definition, so it pins the model's shape for the correspondence run — its assurance about tonic is the tie, not this proof.) -/
 theorem C14_deadline_serve_is_serve (r : R) (env : List Ans) (zero : Bool) :
     serveD r env zero = ((serve r env).1, (serve r env).2.1, viewD zero (serve r env).2.2) :=
   serveD_eq r env zero
@@ -241,7 +241,7 @@ theorem C14_definite_result_any_call (r : R) (env : List Ans) (cs : CallSpec) (h
 /-- A session of calls of any kinds drives the state machine and consumes the script exactly like
 the plain session of the same length (`toRes` forgets what became of a request once it was out):
 what a call's deadline is, and whether its connection dies under it, has no influence on any
-other call. -/
+other call. (Transcription lemma: it holds by unfolding the model's definition, so it pins the model's shape for the correspondence run — its assurance about tonic is the tie, not this proof.) -/
 theorem C14_session_any_calls_is_session (r : R) (env : List Ans) (specs : List CallSpec) :
     (sessionX r env specs).1.map XRes.toRes = (session r env specs.length).1 ∧
     (sessionX r env specs).2 = (session r env specs.length).2 :=
